@@ -250,10 +250,30 @@ class Files:
                     self.pads[victim] = hashlib.md5(open(victim, "rb").read()).hexdigest()
             allp = paths[:1] + extra + paths[1:]
             infos = {x: _localfs_info(x) for x in allp}
-            res = _get_hashes(allp, self.fs, alg, infos, state=self.state)
+            # batch and single lookups agree on what is a hit: a path the single lookup answers from the cache is not
+            # read again by the batch
+            single_hit = set()
+            for x in paths:
+                _m, hi0 = self.state.get(x, self.fs, info=infos[x])
+                if hi0 is not None and hi0.name == alg:
+                    single_hit.add(x)
+            import dvc_data.hashfile.build as _b
+
+            reread, real_hf = [], _b.hash_file
+
+            def counting(pth, *a_, **kw_):
+                reread.append(pth)
+                return real_hf(pth, *a_, **kw_)
+
+            _b.hash_file = counting
+            try:
+                res = _get_hashes(allp, self.fs, alg, infos, state=self.state)
+            finally:
+                _b.hash_file = real_hf
+            pads_ok = not (single_hit & set(reread))
             for p in P:
                 ans[p] = self.ident(alg, res[self.path(p)][1].value)
-            pads_ok = all(res[x][1].value == self.pads[x] for x in extra) if alg == "md5" else True
+            pads_ok = pads_ok and (all(res[x][1].value == self.pads[x] for x in extra) if alg == "md5" else True)
             # batch and single lookups agree
             for p in P:
                 _m, hi = hash_file(self.path(p), self.fs, alg, self.state)
@@ -375,6 +395,9 @@ def run_trace(case):
     if any(o["op"] == "QueryRace" for o in case["ops"]):
         APIS = ["hash_file", "get_hashes", "hash_file_info"] if any(o.get("api") == "any" for o in case["ops"]) else APIS
     try:
+        if case.get("empty_batch"):
+            # a batch lookup of nothing while the database is still empty (a directory holding only sub-directories)
+            list(f.state.get_many([], f.fs, {}))
         for k, a in enumerate(case["ops"]):
             a = dict(a)
             op = a["op"]
@@ -467,6 +490,13 @@ def directed_cases():
             q = {"op": "Query", "P": ["p"], "alg": "md5", "api": api}
             cases.append({"id": 200000 + n, "ops": [{"op": "Create", "p": "p", "c": "c1"}, {"op": "Inject", "p": "p", "kind": kind}, q, q]})
             n += 1
+    # rows recorded one by one (single lookups) after an empty batch lookup on the empty database, then a batch lookup
+    for c in ("c1", "c3"):
+        q1 = {"op": "Query", "P": ["p", "q"], "alg": "md5", "api": "hash_file"}
+        qb = {"op": "Query", "P": ["p", "q"], "alg": "md5", "api": "get_hashes"}
+        cases.append({"id": 270000 + n, "empty_batch": True,
+                      "ops": [{"op": "Create", "p": "p", "c": c}, {"op": "Create", "p": "q", "c": "c2"}, q1, qb, q1, qb]})
+        n += 1
     # an index checkout with the state database over a file its old index does not list, every link type
     for lt in ("copy", "hard", "sym"):
         for api in ("hash_file", "get_hashes", "build", "index_md5"):
